@@ -237,7 +237,8 @@ Definition s_infty : list N := Eval compute in utf8 8734.
 Definition s_minfty : list N := Eval compute in [45] ++ utf8 8734.
 Definition s_zinfty : list N := Eval compute in utf8 119911 ++ utf8 8734.
 
-(* bvisit(const Complex &): width = str.length() - 3, one less when a product sign was written *)
+(* bvisit(const Complex &): width = str.length() - 3 (the imaginary unit has 4 bytes), two less when
+   a product sign (3 bytes) was written *)
 Definition u_complex (rn : Z) (rd : positive) (imn : Z) (imd : positive) : sbox :=
   let unit := (Zpos imd =? 1)%Z && ((imn =? 1)%Z || (imn =? -1)%Z) in
   let '(s, mul) :=
@@ -247,7 +248,7 @@ Definition u_complex (rn : Z) (rd : positive) (imn : Z) (imd : positive) : sbox 
               ++ u_qi (Z.abs imn) imd ++ g_dot ++ g_imag, true)
     else if unit then ((if (0 <? imn)%Z then g_imag else [45] ++ g_imag), false)
     else (u_qi imn imd ++ g_dot ++ g_imag, true) in
-  box_w s (blen s - 3 - (if mul then 1 else 0)).
+  box_w s (blen s - 3 - (if mul then 2 else 0)).
 
 Definition unum (n : number) : sbox :=
   match n with
@@ -451,7 +452,8 @@ Section WithRec.
           end
         else u_function code l
     | EFunSym nm l =>
-        rthen (u_join box_e (box_s s_comma) true l) (fun p =>
+        (* StringBox args(""): one empty line *)
+        rthen (u_join (box_s []) (box_s s_comma) true l) (fun p =>
         rthen (enclose_parens (fst p)) (fun a' => Ok (fst (add_right (box_s nm) a'))))
     | ELex code a c =>
         if code =? TC_Contains then u_bin (box_w s_in 3) a c
